@@ -125,7 +125,93 @@ def aligned_ranges(data, fmt):
         for i, line in enumerate(lines):
             if re.match(rb"^\s*[\-\"\w]", line):
                 out.append((i, i + 1))
+        out.extend(element_ranges(data, fmt))
     return out
+
+
+def element_ranges(data, fmt):
+    """Line ranges holding one complete element (a Section or Property with everything below
+    it) of the stored text: <section>/<property> elements, JSON objects inside a list, YAML
+    block-sequence entries."""
+    lines = data.split(b"\n")
+    out = []
+    if fmt == "xml":
+        stack = []
+        for i, line in enumerate(lines):
+            s = line.strip()
+            if re.match(rb"^<(section|property)>$", s):
+                stack.append(i)
+            elif re.match(rb"^</(section|property)>$", s) and stack:
+                out.append((stack.pop(), i + 1))
+    elif fmt == "json":
+        stack = []
+        for i, line in enumerate(lines):
+            m = re.match(rb"^( *)\{$", line)
+            if m:
+                stack.append((len(m.group(1)), i))
+                continue
+            m = re.match(rb"^( *)\},?$", line)
+            if m and stack and stack[-1][0] == len(m.group(1)):
+                ind, start = stack.pop()
+                if line.rstrip().endswith(b","):      # not the last element: a copy stays valid JSON
+                    out.append((start, i + 1))
+    else:
+        for i, line in enumerate(lines):
+            m = re.match(rb"^( *)- \S", line)
+            if not m:
+                continue
+            ind = len(m.group(1))
+            j = i + 1
+            while j < len(lines) and (lines[j].strip() == b"" or
+                                      len(lines[j]) - len(lines[j].lstrip(b" ")) > ind):
+                j += 1
+            if j > i + 1:
+                out.append((i, j))
+    return out
+
+
+_ID_IN_TEXT = re.compile(rb"(?:<id>|\"id\": *\"|\bid: *'?)([0-9a-f]{8}-[0-9a-f]{4}-[0-9a-f]{4}-"
+                         rb"[0-9a-f]{4}-[0-9a-f]{12})")
+
+
+def dup_element_ids(new, fault, fmt):
+    """If the single fault repeats exactly one complete element of the stored text, return the ids
+    of the objects stored inside that element (which of two clashing siblings is 'the valid
+    part' is left open by the statement; every *other* object is a valid part), else None."""
+    if fault["kind"] != "dup":
+        return None
+    rng_ = (fault["l1"], fault["l2"])
+    if rng_ not in element_ranges(new, fmt):
+        return None
+    lines = new.split(b"\n")
+    block = b"\n".join(lines[fault["l1"]:fault["l2"]])
+    return set(m.group(1).decode("ascii") for m in _ID_IN_TEXT.finditer(block))
+
+
+def kept_parts(ref_doc, lenient_doc, excluded, what):
+    """Every Section / Property of the reference reading that the fault did not touch is present
+    in the lenient reading of the damaged text: same id, same parent, same own attributes."""
+    U = Universe()
+    U.register(ref_doc)
+    U.rediscover()
+    want = index_doc(U, ref_doc)
+    V = Universe()
+    V.register(lenient_doc)
+    V.rediscover()
+    got = index_doc(V, lenient_doc)
+    for oid, (pid, attrs) in sorted(want.items()):
+        if oid in excluded:
+            continue
+        if oid not in got:
+            return ("read.kept-parts", "%s lost %s %r" % (what, attrs["k"], attrs.get("name")))
+        if got[oid][0] != pid and pid != ref_doc.id:
+            return ("read.kept-parts", "%s: %s %r moved to another parent" %
+                    (what, attrs["k"], attrs.get("name")))
+        if got[oid][1] != attrs:
+            diffs = [k for k in attrs if got[oid][1].get(k) != attrs[k]]
+            return ("read.kept-parts", "%s: %s %r changed in %r although the fault hit "
+                    "another object" % (what, attrs["k"], attrs.get("name"), diffs))
+    return None
 
 
 ATTR_LINE = re.compile(rb"^\s*<(value|unit|uncertainty|definition|reference|value_origin|"
@@ -312,37 +398,24 @@ def run_case(case):
                 if vio:
                     labels.append("entry:" + name.split("(")[0])
                     break
-            # kept parts: a single fault confined to one attribute record
+            # kept parts: a single fault confined to one attribute record, or repeating exactly
+            # one complete element
             if vio is None and lenient_doc is not None and len(faults) == 1:
                 owner = attr_record_owner(new, faults[0])
+                excluded, what = None, None
                 if owner is not None:
+                    excluded, what = {owner}, "fault in one attribute record of %s" % owner[:8]
                     res.count("labels", "kept-parts-judged")
+                else:
+                    excluded = dup_element_ids(new, faults[0], "xml")
+                    what = "repeating one complete element"
+                    if excluded is not None:
+                        res.count("labels", "kept-parts-dup-judged")
+                if excluded is not None:
                     # reference: the undamaged stored text read by the same lenient reader
                     # (what a save/load round trip does to attributes is C01's business)
                     ref_doc = XMLReader(ignore_errors=True, show_warnings=False).from_string(new)
-                    U.register(ref_doc)
-                    U.rediscover()
-                    want = index_doc(U, ref_doc)
-                    V = Universe()
-                    V.register(lenient_doc)
-                    V.rediscover()
-                    got = index_doc(V, lenient_doc)
-                    for oid, (pid, attrs) in sorted(want.items()):
-                        if oid == owner:
-                            continue
-                        if oid not in got:
-                            vio = ("read.kept-parts", "fault in one attribute record of %s lost "
-                                   "%s %r" % (owner[:8], attrs["k"], attrs.get("name")))
-                            break
-                        if got[oid][0] != pid and pid != ref_doc.id:
-                            vio = ("read.kept-parts", "%s %r moved to another parent" %
-                                   (attrs["k"], attrs.get("name")))
-                            break
-                        if got[oid][1] != attrs:
-                            diffs = [k for k in attrs if got[oid][1].get(k) != attrs[k]]
-                            vio = ("read.kept-parts", "%s %r changed in %r although the fault hit "
-                                   "another object" % (attrs["k"], attrs.get("name"), diffs))
-                            break
+                    vio = kept_parts(ref_doc, lenient_doc, excluded, what)
                     if vio:
                         labels.append("entry:kept-parts")
         else:
@@ -373,9 +446,12 @@ def run_case(case):
                  lambda: ODMLReader(fmt.upper(), show_warnings=False).from_string(text)),
                 ("odml.load", fmt == "yaml", lambda: odml.load(path, fmt, show_warnings=False)),
             ]
+            lenient_doc = None
             for name, lenient, fn in entries:
                 out = call(fn)
                 outcomes.append((name, out[0] if out[0] != "exc" else out[1]))
+                if out[0] == "doc" and name == "DictReader.lenient":
+                    lenient_doc = out[1]
                 if out[0] == "hang":
                     vio = ("read.returns", "%s did not return within %d s" % (name, READ_TIMEOUT))
                 elif out[0] == "none":
@@ -396,6 +472,17 @@ def run_case(case):
                 if vio:
                     labels.append("entry:" + name)
                     break
+            if vio is None and lenient_doc is not None and len(faults) == 1 and current and \
+                    kind_of(lenient_doc) == "doc":
+                excluded = dup_element_ids(new, faults[0], fmt)
+                if excluded is not None:
+                    res.count("labels", "kept-parts-dup-judged")
+                    clean = json.loads(new.decode("utf-8")) if fmt == "json" else \
+                        yaml.safe_load(new.decode("utf-8"))
+                    ref_doc = DictReader(show_warnings=False, ignore_errors=True).to_odml(clean)
+                    vio = kept_parts(ref_doc, lenient_doc, excluded, "repeating one complete element")
+                    if vio:
+                        labels.append("entry:kept-parts")
         res.log.append(jdump({"faults": faults, "outcomes": outcomes}))
         res.fault_shapes.add(seeds.H("c16", fmt, kinds_used, outcomes))
         for name, oc in outcomes:
